@@ -59,6 +59,8 @@ for d in sorted(glob.glob(os.path.join(V, "seeded", "*", "meta.json"))):
     lc = m.get("lead_confirmation", {})
     res = lc.get("check_results", {})
     caught = [f"{p}: " + ", ".join(v["violations"][:3]) for p, v in res.items() if v.get("exit") == 1]
+    if m.get("superseded"):
+        caught = [c + " (on the HEAD it was written for; superseded since: a later repair made the change harmless)" for c in caught]
     missed = [p for p, v in res.items() if v.get("exit") != 1]
     demo = f'{lc.get("demo_exit_modified_tree","?")}/{lc.get("demo_exit_original_tree","?")}'
     rows.append(f'| `{n}` | {m.get("property")} | {", ".join(m.get("files", []))[:60]} | {m.get("title","")[:150]} | '
